@@ -131,6 +131,71 @@ def option_label(point):
     return '+'.join(names) or 'no-options'
 
 
+# --- permutation space (3- and 4-line sequences) ------------------------------
+# distinct lines: two plain, one with a trailing blank, one with a digit group,
+# one carrying the ignore-substring
+PERM_LINES = ['a', 'b', 'c ', 'a1', 'X d']
+# (actual line, reference line) of a genuinely altered / additionally inserted
+# pair: one no option excuses, one an ignore-pattern excuses
+PERM_EXTRA = [('z', 'y'), ('a22', 'a3')]
+PERM_MPCS = [0, 1, 2, 3, 4, 5]
+
+
+def permutation_pairs(lines=PERM_LINES, sizes=(3, 4), extras=PERM_EXTRA):
+    """(actual, reference) pairs: reference = every combination of 3-4
+    distinct lines (in alphabet order), actual = every permutation of it
+    (the identity included); then every such pair with ONE further line
+    altered in the actual at every position, and with one further differing
+    pair of lines inserted at every position (before, between, after)."""
+    for n in sizes:
+        for ref in itertools.combinations(lines, n):
+            ref = list(ref)
+            for perm in itertools.permutations(ref):
+                act = list(perm)
+                yield act, ref
+                for (xa, xe) in extras:
+                    for k in range(n):
+                        if act[k] != xa:
+                            yield act[:k] + [xa] + act[k + 1:], ref
+                    for k in range(n + 1):
+                        yield act[:k] + [xa] + act[k:], ref[:k] + [xe] + ref[k:]
+
+
+# --- long texts (many lines, long lines) --------------------------------------
+LONG_SIZES = [200, 1000, 5000]
+LONG_DEVIATIONS = ['none', 'alter-first', 'alter-middle', 'alter-last',
+                   'extra-actual', 'extra-reference', 'swap-far',
+                   'swap-adjacent+alter-last', 'alter-first+swap-last-two']
+
+
+def long_text(n, deviation, width=0):
+    """(actual, reference) with n distinct lines 'row <i>' (each followed by
+    `width` filler characters) and one named deviation in the actual."""
+    pad = 'x' * width
+    ref = ['row %d%s' % (i, pad) for i in range(n)]
+    act = list(ref)
+    for d in deviation.split('+'):
+        if d == 'none':
+            pass
+        elif d == 'alter-first':
+            act[0] = 'changed' + pad
+        elif d == 'alter-middle':
+            act[n // 2] = 'changed' + pad
+        elif d == 'alter-last':
+            act[n - 1] = pad + 'changed'
+        elif d == 'extra-actual':
+            act.append('one more' + pad)
+        elif d == 'extra-reference':
+            ref.append('one more' + pad)
+        elif d == 'swap-far' and n > 1:
+            act[0], act[n - 1] = act[n - 1], act[0]
+        elif d == 'swap-adjacent' and n > 1:
+            act[0], act[1] = act[1], act[0]
+        elif d == 'swap-last-two' and n > 1:
+            act[n - 2], act[n - 1] = act[n - 1], act[n - 2]
+    return act, ref
+
+
 # --- file level variants -----------------------------------------------------
 # (newline sequence, number of final newlines)
 FILE_FORMS = [('\n', 1), ('\n', 0), ('\n', 2), ('\r\n', 1), ('\r', 1)]
@@ -149,6 +214,15 @@ def content(lines, nl='\n', final=1):
 
 # --- byte strings for the binary assertion -----------------------------------
 BYTE_ALPHABET = [b'a', b'b', b'\x00', b'\xff', b'\n']
+
+
+BYTE_PREFIX_LENGTHS = [0, 1, 4095, 4096, 4097, 8191, 8192, 8193, 65536]
+
+
+def byte_prefix(n):
+    """n bytes of a non-constant pattern whose period (251) divides no power
+    of two, so no two aligned blocks are equal."""
+    return bytes((i * 7 + i // 251) % 251 for i in range(n))
 
 
 def byte_strings(maxlen, alphabet=BYTE_ALPHABET):
